@@ -276,6 +276,9 @@ def _check_table(model, df, sys_=None, ta=25.0, energy=False, phase_arg="", tol=
                 if srow is not None:
                     if not cl(fl(sr["Power (W)"]), fl(srow["Power (W)"])) or not cl(fl(sr["Iout (A)"]), fl(srow["Iout (A)"])) or not cl(fl(sr["Vin (V)"]), fl(srow["Vin (V)"])):
                         F.append(fail("sub.source", "[%s] Subsystem %s voltage/current/power differ from its source row" % (ph, s_), ["C07"]))
+                if energy and "24h energy (Wh)" in cols and srow is not None and sr["24h energy (Wh)"] != "":
+                    if not cl(fl(sr["24h energy (Wh)"]), energy_of(model, ph, fl(srow["Power (W)"]))):
+                        F.append(fail("sub.energy", "[%s] Subsystem %s 24h energy %g != power x the phase's share of 24 h %g" % (ph, s_, fl(sr["24h energy (Wh)"]), energy_of(model, ph, fl(srow["Power (W)"]))), ["C07"]))
                 mw = any(r["Warnings"] != "" for r in members)
                 if (sr["Warnings"] == "Yes") != mw: F.append(fail("sub.warn", "[%s] Subsystem %s warning %r but members' warnings %s" % (ph, s_, sr["Warnings"], mw), ["C09", "C07"]))
                 expect_names.add(("Subsystem " + s_, ph))
